@@ -1,6 +1,6 @@
 (* C17, engine-side TTL: the oracle's dump clause is a consequence of the model of memkv / Badger TTL.
-   On a history the model reproduces (ttl_run = Some _, times non-decreasing) the oracle reports nothing on
-   Badger, and on memkv nothing but the signature of the known finding C17-F2 (code 2). *)
+   On a history the model reproduces (ttl_run = Some _, times non-decreasing, every write with its own revision)
+   the oracle reports nothing, on memkv and on Badger. *)
 From KB Require Import Base.Cases Model.Coder Model.CompactSys Model.C07Cases Model.C17Cases
   Proofs.Coder Proofs.CompactSafe Proofs.CompactWf Proofs.CompactPass Proofs.CompactRanges Proofs.CompactExpiry Proofs.CompactOracle.
 Local Open Scope N_scope.
@@ -11,50 +11,66 @@ Definition lw_step (acc : list (rec * N)) (ev : tev) : list (rec * N) :=
 Lemma latest_writes_snoc : forall l acc ev, latest_writes acc (l ++ [ev]) = lw_step (latest_writes acc l) ev.
 Proof. induction l as [|a l IH]; intros acc ev; cbn [app latest_writes]; [reflexivity|apply IH]. Qed.
 
-Fixpoint mono (now : N) (evs : list tev) : Prop :=
-  match evs with [] => True | ev :: r => now <= ev_time ev /\ mono (ev_time ev) r end.
+(* wall times non-decreasing; the revisions of the writes strictly increasing (every write has its own) *)
+Fixpoint mono (now n : N) (evs : list tev) : Prop :=
+  match evs with
+  | [] => True
+  | TDump t _ :: r => now <= t /\ mono t n r
+  | TCreate t _ _ rv :: r | TUpdate t _ _ rv :: r | TDelete t _ rv :: r => now <= t /\ n <= rv /\ mono t (rv + 1) r
+  end.
 
 Section Ttl.
 Variables (prefix : bytes) (ttl_ms : N).
 
 (* a latest write (x, tw): still stored - without expiry, or with expiry tw + ttl on an event key - or gone, in
-   which case it belongs to an event key and (Badger) its TTL has run out *)
-Definition ent_ok (e : eng) (now : N) (s : tst) (p : rec * N) : Prop :=
+   which case it belongs to an event key and its TTL has run out *)
+Definition ent_ok (now : N) (s : tst) (p : rec * N) : Prop :=
   (exists y, In y (ts_store s) /\ t_rec y = fst p /\
              (t_exp y = 0 \/ (is_event_key prefix (rkey (fst p)) = true /\ t_exp y = snd p + ttl_ms)))
-  \/ (is_event_key prefix (rkey (fst p)) = true /\ (e = EBadger -> snd p + ttl_ms <= now)).
+  \/ (is_event_key prefix (rkey (fst p)) = true /\ snd p + ttl_ms <= now).
 
-Definition tinv (e : eng) (now : N) (s : tst) (lw : list (rec * N)) : Prop :=
-  Forall (ent_ok e now s) lw /\ (forall p, In p (ts_timers s) -> is_event_key prefix (rkey (snd p)) = true).
+(* memkv's timers: armed for a record of an event key written below revision n; as long as that record is the
+   latest write of its slot the timer fires exactly ttl after it was written *)
+Definition timer_ok (n : N) (lw : list (rec * N)) (q : N * rec) : Prop :=
+  is_event_key prefix (rkey (snd q)) = true /\ rec_rev (snd q) < n /\
+  forall tw, In (snd q, tw) lw -> fst q = tw + ttl_ms.
+
+Definition tinv (now n : N) (s : tst) (lw : list (rec * N)) : Prop :=
+  Forall (ent_ok now s) lw /\ Forall (timer_ok n lw) (ts_timers s).
 
 Lemma ttl_cases k : create_ttl ttl_ms prefix k = 0 \/ (create_ttl ttl_ms prefix k = ttl_ms /\ is_event_key prefix k = true).
 Proof.
   unfold create_ttl, is_event_key, events_prefix. destruct (has_prefix (prefix ++ events_sub) k); [right; split; reflexivity|left; reflexivity].
 Qed.
 
-Lemma advance_inv e now t s lw : now <= t -> tinv e now s lw -> tinv e t (advance e t s) lw.
+Lemma advance_inv e now n t s lw : now <= t -> tinv now n s lw -> tinv t n (advance e t s) lw.
 Proof.
   intros Hle [Hf Ht]. split.
   - apply Forall_forall. intros p Hp. rewrite Forall_forall in Hf. destruct (Hf p Hp) as [(y & Hy & Ey & Hexp)|(Hev & Hb)].
     + destruct e; cbn [advance ts_store].
-      * (* memkv: removed by a fired timer of the same slot *)
-        destruct (existsb (fun q => same_slot (snd q) (t_rec y)) (filter (fun q => fst q <=? t) (ts_timers s))) eqn:Ef.
-        -- right. split; [|intros HH; discriminate HH]. apply existsb_exists in Ef as (q & Hq & Hs). apply filter_In in Hq as [Hq _].
-           apply same_slot_key in Hs. rewrite <- Ey, Hs. apply Ht. exact Hq.
+      * (* memkv: removed by the fired timer of this very record *)
+        destruct (existsb (fun q => rec_eqb (snd q) (t_rec y)) (filter (fun q => fst q <=? t) (ts_timers s))) eqn:Ef.
+        -- right. apply existsb_exists in Ef as (q & Hq & Hs). apply filter_In in Hq as [Hq Hfire].
+           apply rec_eqb_eq in Hs. rewrite Ey in Hs. rewrite Forall_forall in Ht. destruct (Ht q Hq) as (Hev & _ & Htime).
+           rewrite Hs in *. split; [exact Hev|]. apply N.leb_le in Hfire.
+           rewrite <- (Htime (snd p)); [exact Hfire|]. destruct p; exact Hp.
         -- left. exists y. split; [apply filter_In; split; [exact Hy|rewrite Ef; reflexivity]|auto].
       * destruct ((t_exp y =? 0) || (t <? t_exp y)) eqn:Ek.
         -- left. exists y. split; [apply filter_In; split; assumption|auto].
         -- apply orb_false_iff in Ek as [E0 E1]. apply N.eqb_neq in E0. apply N.ltb_ge in E1.
-           destruct Hexp as [H0|[Hev Hx]]; [contradiction|]. right. split; [exact Hev|]. intros _. lia.
-    + right. split; [exact Hev|]. intros He. specialize (Hb He). lia.
-  - intros p Hp. apply Ht. destruct e; cbn [advance ts_timers] in Hp; [apply filter_In in Hp; apply Hp|exact Hp].
+           destruct Hexp as [H0|[Hev Hx]]; [contradiction|]. right. split; [exact Hev|]. lia.
+    + right. split; [exact Hev|]. lia.
+  - apply Forall_forall. intros q Hq. rewrite Forall_forall in Ht. apply Ht.
+    destruct e; cbn [advance ts_timers] in Hq; [apply filter_In in Hq; apply Hq|exact Hq].
 Qed.
 
-Lemma put_inv e now s lw t ttl x :
+Lemma put_inv e now n s lw t ttl x :
   (ttl = 0 \/ (ttl = ttl_ms /\ is_event_key prefix (rkey x) = true)) ->
-  tinv e now s lw -> tinv e now (put_ent e t ttl x s) (filter (fun p => negb (same_slot x (fst p))) lw ++ [(x, t)]).
+  rec_rev x < n ->
+  (forall q, In q (ts_timers s) -> snd q <> x) ->
+  tinv now n s lw -> tinv now n (put_ent e t ttl x s) (filter (fun p => negb (same_slot x (fst p))) lw ++ [(x, t)]).
 Proof.
-  intros Httl [Hf Ht]. split.
+  intros Httl Hrev Hfresh [Hf Ht]. split.
   - apply Forall_app. split.
     + apply Forall_forall. intros p Hin. apply filter_In in Hin as [Hin Hs].
       rewrite Forall_forall in Hf. destruct (Hf p Hin) as [(y & Hy & Ey & Hexp)|Hr]; [left|right; exact Hr].
@@ -63,83 +79,102 @@ Proof.
       * exists (mkT x t 0). split; [apply in_app_iff; right; left; reflexivity|]. split; [reflexivity|left; reflexivity].
       * exists (mkT x t (if ttl =? 0 then 0 else t + ttl)). split; [apply in_app_iff; right; left; reflexivity|]. split; [reflexivity|].
         cbn [t_exp]. destruct (ttl =? 0) eqn:E0; [left; reflexivity|]. destruct Httl as [->|[-> Hev]]; [discriminate|]. right. split; [exact Hev|reflexivity].
-  - intros p Hp. destruct e; cbn [put_ent ts_timers] in Hp; [|apply Ht; exact Hp].
-    destruct (ttl =? 0) eqn:E0; [apply Ht; exact Hp|]. apply in_app_iff in Hp as [Hp|[<-|[]]]; [apply Ht; exact Hp|].
-    cbn [snd]. destruct Httl as [->|[_ Hev]]; [discriminate|exact Hev].
+  - (* the timers: the old ones are not armed for x, the new one is armed for this write *)
+    assert (Hold : forall q, In q (ts_timers s) -> timer_ok n (filter (fun p => negb (same_slot x (fst p))) lw ++ [(x, t)]) q).
+    { intros q Hq. rewrite Forall_forall in Ht. destruct (Ht q Hq) as (Hev & Hb & Htime). split; [exact Hev|]. split; [exact Hb|].
+      intros tw Hin. apply in_app_iff in Hin as [Hin|[E|[]]].
+      - apply filter_In in Hin as [Hin _]. apply Htime. exact Hin.
+      - injection E as E _. exfalso. apply (Hfresh q Hq). symmetry. exact E. }
+    apply Forall_forall. intros q Hq.
+    destruct e; cbn [put_ent ts_timers] in Hq; [|apply Hold; exact Hq].
+    destruct (ttl =? 0) eqn:E0; [apply Hold; exact Hq|]. apply in_app_iff in Hq as [Hq|[<-|[]]]; [apply Hold; exact Hq|].
+    cbn [fst snd]. destruct Httl as [->|[-> Hev]]; [discriminate|]. split; [exact Hev|]. split; [exact Hrev|].
+    intros tw Hin. apply in_app_iff in Hin as [Hin|[E|[]]].
+    + apply filter_In in Hin as [_ Hs]. cbn [fst] in Hs. rewrite same_slot_refl in Hs. discriminate.
+    + injection E as <-. reflexivity.
 Qed.
 
-(* a verdict the engine's model allows: nothing, or (memkv only) the known signature *)
-Definition allowed (e : eng) (o : option N) : Prop := o = None \/ (e = EMem /\ o = Some 2).
+Lemma worse_none a b : a = None -> b = None -> worse a b = None.
+Proof. intros -> ->. reflexivity. Qed.
 
-Lemma worse_allowed e a b : allowed e a -> allowed e b -> allowed e (worse a b).
-Proof. intros [->|[He ->]] [->|[He' ->]]; cbn; unfold allowed; auto. Qed.
-
-Definition dump_verdict (e : eng) (t : N) (obs : store) (acc : option N) (p : rec * N) : option N :=
+Definition dump_verdict (t : N) (obs : store) (acc : option N) (p : rec * N) : option N :=
   let '(x, tw) := p in
   if memb x obs then acc
   else worse acc
     (if negb (is_event_key prefix (rkey x)) then Some 0
      else if ttl_ms <=? t - tw then None
-     else match e with EMem => Some 2 | EBadger => Some 0 end).
+     else Some 0).
 
-Lemma dump_allowed e t s lw : tinv e t s lw ->
-  forall acc, allowed e acc -> allowed e (fold_left (dump_verdict e t (sort_by rec_ltb (map t_rec (ts_store s)))) lw acc).
+Lemma dump_none t n s lw : tinv t n s lw ->
+  forall acc, acc = None -> fold_left (dump_verdict t (sort_by rec_ltb (map t_rec (ts_store s)))) lw acc = None.
 Proof.
   intros [Hf _]. induction Hf as [|[x tw] lw Hp Hf IH]; intros acc Ha; cbn [fold_left]; [exact Ha|].
   apply IH. unfold dump_verdict.
   destruct (memb x (sort_by rec_ltb (map t_rec (ts_store s)))) eqn:Em; [exact Ha|].
-  apply worse_allowed; [exact Ha|].
+  apply worse_none; [exact Ha|].
   destruct Hp as [(y & Hy & Ey & _)|(Hev & Hb)]; cbn [fst snd] in *.
   - exfalso. assert (memb x (sort_by rec_ltb (map t_rec (ts_store s))) = true); [|congruence].
     apply memb_spec. apply in_sort_by. rewrite <- Ey. apply in_map. exact Hy.
-  - rewrite Hev. cbn [negb]. destruct (ttl_ms <=? t - tw) eqn:El; [left; reflexivity|].
-    destruct e; [right; split; reflexivity|]. apply N.leb_gt in El. specialize (Hb eq_refl). lia.
+  - rewrite Hev. cbn [negb]. destruct (ttl_ms <=? t - tw) eqn:El; [reflexivity|]. apply N.leb_gt in El. lia.
 Qed.
 
-Lemma write_inv e now t s lw k rev v flag ttl :
-  now <= t -> (ttl = 0 \/ (ttl = ttl_ms /\ is_event_key prefix k = true)) -> tinv e now s lw ->
-  forall ev, ev_time ev = t -> ev_writes ev = [RIdx k rev flag; RVer k rev v] ->
-  tinv e t (put_ent e t ttl (RVer k rev v) (put_ent e t ttl (RIdx k rev flag) (advance e t s))) (lw_step lw ev).
+Lemma tinv_bound now n n' s lw : n <= n' -> tinv now n s lw -> tinv now n' s lw.
 Proof.
-  intros Hle Httl Hi ev Et Ew. unfold lw_step. rewrite Ew, Et. cbn [fold_left].
-  apply put_inv; [exact Httl|]. apply put_inv; [exact Httl|]. apply (advance_inv e now); assumption.
+  intros Hn [Hf Ht]. split; [exact Hf|]. eapply Forall_impl; [|exact Ht]. intros q (H1 & H2 & H3). split; [exact H1|]. split; [lia|exact H3].
 Qed.
 
-Theorem ttl_oracle_allowed e : forall evs seen s now V,
-  tinv e now s (latest_writes [] (rev seen)) -> mono now evs ->
+Lemma write_inv e now n t s lw k rv v flag ttl :
+  now <= t -> n <= rv -> (ttl = 0 \/ (ttl = ttl_ms /\ is_event_key prefix k = true)) -> tinv now n s lw ->
+  forall ev, ev_time ev = t -> ev_writes ev = [RIdx k rv flag; RVer k rv v] ->
+  tinv t (rv + 1) (put_ent e t ttl (RVer k rv v) (put_ent e t ttl (RIdx k rv flag) (advance e t s))) (lw_step lw ev).
+Proof.
+  intros Hle Hn Httl Hi ev Et Ew. unfold lw_step. rewrite Ew, Et. cbn [fold_left].
+  pose proof (advance_inv e now n t s lw Hle Hi) as H0.
+  assert (Hf0 : forall q, In q (ts_timers (advance e t s)) -> rec_rev (snd q) < n).
+  { intros q Hq. destruct H0 as [_ Ht]. rewrite Forall_forall in Ht. apply (Ht q Hq). }
+  apply (tinv_bound t n (rv + 1)) in H0; [|lia].
+  assert (H1 : tinv t (rv + 1) (put_ent e t ttl (RIdx k rv flag) (advance e t s))
+                    (filter (fun p => negb (same_slot (RIdx k rv flag) (fst p))) lw ++ [(RIdx k rv flag, t)])).
+  { apply put_inv; [exact Httl|cbn [rec_rev]; lia| |exact H0].
+    intros q Hq E. specialize (Hf0 q Hq). rewrite E in Hf0. cbn [rec_rev] in Hf0. lia. }
+  apply put_inv; [exact Httl|cbn [rec_rev]; lia| |exact H1].
+  intros q Hq E. destruct e; cbn [put_ent ts_timers] in Hq.
+  - destruct (ttl =? 0); [|apply in_app_iff in Hq as [Hq|[<-|[]]]; [|discriminate E]];
+      specialize (Hf0 q Hq); rewrite E in Hf0; cbn [rec_rev] in Hf0; lia.
+  - specialize (Hf0 q Hq). rewrite E in Hf0. cbn [rec_rev] in Hf0. lia.
+Qed.
+
+Theorem ttl_oracle_none e : forall evs seen s now n V,
+  tinv now n s (latest_writes [] (rev seen)) -> mono now n evs ->
   ttl_run e prefix ttl_ms s evs = Some V ->
-  allowed e (ttl_oracle e prefix ttl_ms seen evs).
+  ttl_oracle e prefix ttl_ms seen evs = None.
 Proof.
-  induction evs as [|ev evs IH]; intros seen s now V Hi Hm Hr; [left; reflexivity|].
-  destruct Hm as [Hle Hm].
-  destruct ev as [t k v rv|t k v rv|t k rv|t obs]; cbn [ttl_run ttl_oracle ev_time] in *.
-  - refine (IH _ _ t V _ Hm Hr). cbn [rev]. rewrite latest_writes_snoc.
-    apply (write_inv e now t s _ k rv v false); auto. apply ttl_cases.
-  - refine (IH _ _ t V _ Hm Hr). cbn [rev]. rewrite latest_writes_snoc.
-    apply (write_inv e now t s _ k rv v false); auto.
-  - refine (IH _ _ t V _ Hm Hr). cbn [rev]. rewrite latest_writes_snoc.
-    apply (write_inv e now t s _ k rv tombstone true); auto.
-  - destruct (store_eqb (sort_by rec_ltb (map t_rec (ts_store (advance e t s)))) obs) eqn:Eo; [|discriminate].
-    apply store_eqb_eq in Eo. pose proof (advance_inv e now t s _ Hle Hi) as Hi'.
-    apply worse_allowed.
-    + rewrite <- Eo. apply (dump_allowed e t _ _ Hi'). left; reflexivity.
-    + refine (IH _ _ t V _ Hm Hr). cbn [rev]. rewrite latest_writes_snoc. exact Hi'.
+  induction evs as [|ev evs IH]; intros seen s now n V Hi Hm Hr; [reflexivity|].
+  destruct ev as [t k v rv|t k v rv|t k rv|t obs]; cbn [mono ttl_run ttl_oracle ev_time] in *.
+  - destruct Hm as (Hle & Hn & Hm). refine (IH _ _ t (rv + 1) V _ Hm Hr). cbn [rev]. rewrite latest_writes_snoc.
+    apply (write_inv e now n t s _ k rv v false); auto. apply ttl_cases.
+  - destruct Hm as (Hle & Hn & Hm). refine (IH _ _ t (rv + 1) V _ Hm Hr). cbn [rev]. rewrite latest_writes_snoc.
+    apply (write_inv e now n t s _ k rv v false); auto.
+  - destruct Hm as (Hle & Hn & Hm). refine (IH _ _ t (rv + 1) V _ Hm Hr). cbn [rev]. rewrite latest_writes_snoc.
+    apply (write_inv e now n t s _ k rv tombstone true); auto.
+  - destruct Hm as (Hle & Hm).
+    destruct (store_eqb (sort_by rec_ltb (map t_rec (ts_store (advance e t s)))) obs) eqn:Eo; [|discriminate].
+    apply store_eqb_eq in Eo. pose proof (advance_inv e now n t s _ Hle Hi) as Hi'.
+    apply worse_none.
+    + rewrite <- Eo. apply (dump_none t n _ _ Hi'). reflexivity.
+    + refine (IH _ _ t n V _ Hm Hr). cbn [rev]. rewrite latest_writes_snoc. exact Hi'.
 Qed.
 
 End Ttl.
 
-(* from the empty engine *)
+(* from the empty engine: the oracle reports nothing, on memkv and on Badger *)
 Theorem ttl_oracle_sound e prefix ttl_ms evs V :
-  mono 0 evs -> ttl_run e prefix ttl_ms (mkTS [] []) evs = Some V ->
-  ttl_oracle e prefix ttl_ms [] evs = None \/ (e = EMem /\ ttl_oracle e prefix ttl_ms [] evs = Some 2).
+  mono 0 0 evs -> ttl_run e prefix ttl_ms (mkTS [] []) evs = Some V ->
+  ttl_oracle e prefix ttl_ms [] evs = None.
 Proof.
-  intros Hm Hr. apply (ttl_oracle_allowed prefix ttl_ms e evs [] (mkTS [] []) 0 V); [|exact Hm|exact Hr].
-  split; [constructor|intros p []].
+  intros Hm Hr. apply (ttl_oracle_none prefix ttl_ms e evs [] (mkTS [] []) 0 0 V); [|exact Hm|exact Hr].
+  split; constructor.
 Qed.
-
-Corollary ttl_oracle_sound_badger prefix ttl_ms evs V :
-  mono 0 evs -> ttl_run EBadger prefix ttl_ms (mkTS [] []) evs = Some V -> ttl_oracle EBadger prefix ttl_ms [] evs = None.
-Proof. intros Hm Hr. destruct (ttl_oracle_sound EBadger prefix ttl_ms evs V Hm Hr) as [H|[H _]]; [exact H|discriminate]. Qed.
 
 (* the final Get / Create probes: on a store satisfying the relaxed well-formedness a key that reads absent can
    be created and one that reads present cannot - the oracle's rule follows from the model's answers *)
@@ -161,20 +196,19 @@ Proof.
   - apply (IH V' (n + 1)); [exact Hw'|exact Hf'| |exact H]. cbn [length] in Hb. lia.
 Qed.
 
-(* the engine-TTL cases: the oracle reports nothing (Badger), or nothing but the known memkv signature *)
+(* the engine-TTL cases: the oracle reports nothing *)
 Theorem c17_engine_ttl_sound e prefix ttl_ms evs fin :
-  mono 0 evs ->
+  mono 0 0 evs ->
   (forall V, ttl_run e prefix ttl_ms (mkTS [] []) evs = Some V ->
              wfd V /\ fresh V 1000000 /\ 1000000 + N.of_nat (length fin) <= max_rev) ->
   c17_check (KEngineTtl e prefix ttl_ms evs fin) = true ->
-  c17_oracle (KEngineTtl e prefix ttl_ms evs fin) = None \/
-  (e = EMem /\ c17_oracle (KEngineTtl e prefix ttl_ms evs fin) = Some 2).
+  c17_oracle (KEngineTtl e prefix ttl_ms evs fin) = None.
 Proof.
   intros Hm Hv Hc. cbn [c17_check c17_oracle] in *.
   destruct (ttl_run e prefix ttl_ms (mkTS [] []) evs) as [V|] eqn:Er; [|discriminate].
   destruct (Hv V eq_refl) as (Hw & Hf & Hb).
   rewrite (ttl_fin_rule fin V 1000000 Hw Hf Hb Hc).
-  destruct (ttl_oracle_sound e prefix ttl_ms evs V Hm Er) as [->|[He ->]]; [left; reflexivity|right; split; [exact He|reflexivity]].
+  rewrite (ttl_oracle_sound e prefix ttl_ms evs V Hm Er). reflexivity.
 Qed.
 
 (* ================================================================================================ *)
